@@ -247,6 +247,7 @@ void  XMLBigDecimal::parseDecimal(const XMLCh* const toParse
     }
 
     // Strip leading zeros
+    const XMLCh* const digitsPtr = startPtr;
     while (*startPtr == chDigit_0)
         startPtr++;
 
@@ -257,6 +258,11 @@ void  XMLBigDecimal::parseDecimal(const XMLCh* const toParse
         sign = 0;
         return;
     }
+
+    // a decimal point alone is not a number: there must be
+    // at least one digit, before or after it
+    if ((startPtr == digitsPtr) && (*startPtr == chPeriod) && (startPtr + 1 == endPtr))
+        ThrowXMLwithMemMgr(NumberFormatException, XMLExcepts::XMLNUM_Inv_chars, manager);
 
     XMLCh* retPtr = (XMLCh*) retBuffer;
 
@@ -348,6 +354,7 @@ void  XMLBigDecimal::parseDecimal(const XMLCh*         const toParse
     }
 
     // Strip leading zeros
+    const XMLCh* const digitsPtr = startPtr;
     while (*startPtr == chDigit_0)
         startPtr++;
 
@@ -357,6 +364,11 @@ void  XMLBigDecimal::parseDecimal(const XMLCh*         const toParse
     {
         return;
     }
+
+    // a decimal point alone is not a number: there must be
+    // at least one digit, before or after it
+    if ((startPtr == digitsPtr) && (*startPtr == chPeriod) && (startPtr + 1 == endPtr))
+        ThrowXMLwithMemMgr(NumberFormatException, XMLExcepts::XMLNUM_Inv_chars, manager);
 
     // Scan data
     bool   dotSignFound = false;
